@@ -43,11 +43,14 @@ XK = [
     ["XR", B([T("xr")]), "<REPR/>"],
     ["XS", B([T("stored"), dep("xd3", "3.0")], [["class", "st"]])],
     ["XS", ["L", [T("sl1"), I([T("sl2")])]]],
+    ["X", T("")],
+    ["X", H("")],
     ["XT", B([T("from-str-subclass")]), "raw text of the str subclass"],
     ["XD", ["L", [I([T("from-dep-subclass")]), dep("xd4", "4.0")]]],
 ]
 ITEMS = PLAIN + XK
-WRAPPERS = ["top", "block", "inline", "nested", "html-root", "displayed", "html-root-stored-head"]
+WRAPPERS = ["top", "block", "inline", "nested", "html-root", "displayed", "html-root-stored-head", "void-parent",
+            "raw-text-parent"]
 
 
 def expand(spec):
@@ -79,6 +82,10 @@ def wrap(items, wrapper):
     if wrapper == "html-root":
         # the document's sole content is the user's own <html>: hoisting must see the expansions
         return ["E", "html", True, [], [["E", "head", True, [], []], ["E", "body", True, [], items]]]
+    if wrapper == "void-parent":
+        return ["E", "br", False, [], items]          # <br> with children keeps its end tag
+    if wrapper == "raw-text-parent":
+        return B([["E", "style", True, [], items], T("after")])
     if wrapper == "html-root-stored-head":
         # the <head> itself comes from a tagifiable object that hands out the same stored tag every time
         return ["E", "html", True, [], [["XS", ["E", "head", True, [], [["E", "title", True, [], [T("t")]]]]],
